@@ -803,7 +803,10 @@ def task_grid(tier, seed, arg):
 
 # --------------------------------------------------------------------------- element_sum
 
-FIXED_FORMULAS = ["Co30Fe70", "Au", "Eu", "U", "NaCl"]
+# the last six name a natural element together with one of its own isotopes, in both orders: the
+# contributions to one product must ADD whichever comes first
+FIXED_FORMULAS = ["Co30Fe70", "Au", "Eu", "U", "NaCl",
+                  "HDO", "DHO", "CoCo[59]", "Co[59]Co", "Eu2Eu[151]O3", "Li[6]LiF2"]
 ENVS = [{"fluence": 1e5, "Cd_ratio": 70.0, "fast_ratio": 50.0},
         {"fluence": 1e13, "Cd_ratio": 0.0, "fast_ratio": 0.0},
         {"fluence": 3e8, "Cd_ratio": 1.0, "fast_ratio": 50.0}]
